@@ -38,7 +38,7 @@ def atom(rng, aliases):
     if k < 0.40:
         return f'{al}.{c} {rng.choice(["=", "=", ">", "<", "!=", ">=", "<="])} {v}'
     if k < 0.46:
-        return f'{v} {rng.choice(["=", "<"])} {al}.{c}'
+        return f'{v} {rng.choice(["=", "<", "<=", ">", ">=", "!="])} {al}.{c}'
     if k < 0.54:
         return f'{al}.{c} between {rng.randint(0, 1)} and {rng.randint(1, 3)}'
     if k < 0.62 and len(aliases) > 1:
@@ -239,6 +239,12 @@ def systematic_edges():
                     out.append(f'select * from int1.t1 {j1} int2.t2 on t1.a = t2.a {j2} int3.t3 on t2.a = t3.a where ' + pr.format(t=t))
     # chains of three tables over every choice of key columns: the restriction sent with a later fetch has to come from the
     # column of the table named in ITS join condition
+    # a comparison written constant-first is the mirrored comparison, for every operator and on either side of the join
+    for op in ('=', '<', '<=', '>', '>=', '!='):
+        for t in ('t1', 't2'):
+            for v in (1, 2):
+                out.append(f'select * from int1.t1 join int2.t2 on t1.a = t2.a where {v} {op} {t}.b')
+                out.append(f'select * from int1.t1 left join int2.t2 on t1.a = t2.a where {v} {op} {t}.b and t1.c >= 0')
     for c1, c2, c3, c4 in itertools.product(COLS, repeat=4):
         out.append(f'select * from int1.t1 join int2.t2 on t1.{c1} = t2.{c2} join int3.t3 on t2.{c3} = t3.{c4}')
         if c1 == c3:
